@@ -55,3 +55,46 @@ func Verif_Step_sack_arb() {
 	}
 	V.Assert(resp.RTT >= 0, "C05/rtt-nonneg")
 }
+
+// Verif_Step_sack_layout: arbitrary TCP segment whose option area follows a catalogue layout (NOP NOP SACK with 1-2
+// blocks, optionally preceded by NOP NOP TIMESTAMPS); every other byte - addresses, ports, flags, sequence numbers,
+// block edges - symbolic. Decides C01/C04/C09 for the selective-ACK form, which needs >= 10 option bytes.
+func Verif_Step_sack_layout() {
+	d, sink, src, _, _, min, m := vSetup()
+	nb := V.ParamInt("blocks", 1)
+	ts := V.ParamInt("ts", 0) == 1
+	optLen := 4 + 8*nb
+	if ts {
+		optLen += 12
+	}
+	L := 40 + optLen
+	P := V.Bytes("P", L)
+	V.Assume(P[0] == 0x45)
+	V.Assume(P[9] == 6)
+	V.Assume(int(P[32]>>4) == (20+optLen)/4)
+	o := 40
+	if ts {
+		V.Assume(V.All(P[o] == 1, P[o+1] == 1, P[o+2] == 8, P[o+3] == 10))
+		o += 12
+	}
+	V.Assume(V.All(P[o] == 1, P[o+1] == 1, P[o+2] == 5, int(P[o+3]) == 2+8*nb))
+	src.Next = append([]byte(nil), P...)
+	resp, err := d.ReceiveProbe(100 * time.Millisecond)
+	if err != nil {
+		V.Reach("rejected")
+		var ns *NotSupportedError
+		V.Assert(!errors.As(err, &ns), "C09/sack-blocks-present-never-unsupported")
+		V.Assert(common.CheckProbeRetryable("ReceiveProbe", err), "C09/retryable")
+		return
+	}
+	V.Reach("accepted-sack")
+	ttl := resp.TTL
+	V.Assert(V.All(ttl >= min, ttl <= m), "C01/ttl-was-sent")
+	V.Assume(V.All(ttl >= min, ttl <= m))
+	pr := sink.Pkts[V.Concretize(int(ttl-min))]
+	rel, found := vMinSack(P[40:], d.state.localInitSeq)
+	V.Assert(V.All(vOnTuple(P, pr), P[33]&0x07 == 0, found, rel == uint32(ttl)), "C01/genuine")
+	V.Assert(resp.IP == N.Src4(P), "C01/responder")
+	V.Assert(resp.IsDest, "C04/sack-is-dest")
+	V.Assert(resp.RTT >= 0, "C05/rtt-nonneg")
+}
